@@ -128,6 +128,9 @@ def fmt_op(op) -> str:
     if k == "N":
         # a refused constructor call: for the model a rejected no-op (written as the type-error assignment `children = 5`)
         return f"K:{op[1] if op[1] is not None else 0}:none"
+    if k == "F":
+        # a library call on OTHER, fresh objects that fails half-way: nothing the model knows about happens
+        return "K:0:none"
     raise ValueError(op)
 
 
@@ -210,6 +213,8 @@ def apply_op(nodes, op) -> str:
             nodes[op[1]].sort(key=lambda nd: ranks[idx[id(nd)]] if idx[id(nd)] < len(ranks) else 0, reverse=bool(op[3]))
         elif k == "Z":
             nodes[op[1]].sep = op[2]
+        elif k == "F":
+            failing_library_call(op[1])
         elif k == "N":
             # Node("", parent=p, children=[...]): refused (a Node must have a name) - and must not have linked anything
             type(nodes[0])("", parent=None if op[1] is None else nodes[op[1]], children=[nodes[c] for c in op[2]])
@@ -224,6 +229,32 @@ def apply_op(nodes, op) -> str:
         _watchdog(False)
         FAULT["kind"] = None
         FAULT["skip"] = 0
+
+
+N_FAILING_CALLS = 7
+
+
+def failing_library_call(variant):
+    """a constructor / builder call on fresh objects that the library refuses HALF-WAY (after it has already built and
+    linked part of the result).  It must raise; whatever process-wide state it touched on the way (the ASSERTIONS
+    switch, module-level caches) must be what it was, or the calls that follow in the history behave differently."""
+    import bigtree
+    v = variant % N_FAILING_CALLS
+    if v == 0:
+        bigtree.list_to_tree(["a/b/c", "a/d", "x/y"])                       # second root
+    elif v == 1:
+        bigtree.nested_dict_to_tree({"name": "a", "children": [{"name": "b"}, {"name": "c", "children": [{"name": "d"}, {"name": "d"}]}]})
+    elif v == 2:
+        bigtree.list_to_dag([("a", "b"), ("b", "c"), ("c", "a")])           # cycle closes at the last relation
+    elif v == 3:
+        bigtree.list_to_binarytree([1, 2, 3, None, 5])
+    elif v == 4:
+        bigtree.list_to_tree(["a/b", "a/c/b"], duplicate_name_allowed=False)
+    elif v == 5:
+        bigtree.list_to_tree_by_relation([("a", "b"), ("a", "c"), ("c", "b"), ("b", "d")])   # non-leaf b under two parents
+    else:
+        bigtree.dict_to_dag({"a": {"parents": ["b"]}, "b": {"parents": ["a"]}})
+    raise AssertionError("failing_library_call: the call was accepted")
 
 
 def snap(nodes):
@@ -365,7 +396,7 @@ def must_reject(sn, op, n):
     if k == "C":
         v, cs = op[1], op[2]
         return any(c >= n or c == v or c in _anc(sn, v) for c in cs) or len(set(cs)) != len(cs)
-    if k in ("K", "N"):
+    if k in ("K", "N", "F"):
         return True
     return False
 
@@ -599,8 +630,10 @@ def random_history(rng: random.Random, cls, n, names, sep, nops, fault_rate=0.25
         elif r < 0.93:
             ranks = [rng.randrange(4) for _ in V]
             op = ["S", rng.choice(donors) if donors and rng.random() < 0.7 else rng.choice(V), ranks, rng.random() < 0.4]
-        elif r < 0.94:
+        elif r < 0.935:
             op = ["K", rng.choice(V), fault()]
+        elif r < 0.94:
+            op = ["F", rng.randrange(N_FAILING_CALLS)]
         elif cls == "node" and r < 0.955:
             pool = ok_children(sn, rng.choice(V))
             op = ["N", rng.choice([None] + V), rng.sample(pool, min(len(pool), rng.randint(0, 2)))]
